@@ -85,7 +85,130 @@ static void m_reset(void) {
     dead_pops = 0;
 }
 
+/* ---- probes: the behavioural core of the property, independent of how the heap is laid out in its array ----
+ * For every explored state the queue is copied (container and handle array are public members of struct
+ * aws_priority_queue; the copies get their own handle nodes) and each copy is driven to the end:
+ *   drain                      popping until empty yields the reference multiset in non-decreasing priority order, bytes
+ *                              intact, every handle marked as gone;
+ *   push(255), then drain      the same after one more element went in behind everything else - an element left in the
+ *                              wrong place by an earlier operation is no longer the last one, so a pop does not
+ *                              accidentally repair it;
+ *   push(0), then drain        ... and after a new minimum went in;
+ *   remove(h), then drain      for every live handle.
+ * These replace the former "every slot is above its binary-heap parent" clause, which held the implementation to one
+ * particular layout (a false alarm on a 4-ary heap). */
+struct probe {
+    struct aws_priority_queue pq;
+    struct aws_priority_queue_node hn[NH];
+    struct rel rf[MAXEL + 2];
+    int n;
+    uint8_t store[(MAXEL + 2) * MAXITEM];
+};
+static void probe_clone(struct probe *p) {
+    memset(p, 0, sizeof(*p));
+    p->pq = q;
+    for (int i = 0; i < NH; ++i) p->hn[i] = hnode[i];
+    memcpy(p->rf, ref, sizeof(ref));
+    p->n = nref;
+    if (q.container.alloc) {
+        if (q.container.data) {
+            p->pq.container.data = aws_mem_acquire(q.container.alloc, q.container.current_size ? q.container.current_size : 1);
+            memcpy(p->pq.container.data, q.container.data, q.container.length * q.container.item_size);
+        }
+    } else {
+        p->pq.container.data = p->store;
+        memcpy(p->store, q.container.data, q.container.length * q.container.item_size);
+    }
+    if (q.backpointers.data) {
+        p->pq.backpointers.data = aws_mem_acquire(q.backpointers.alloc, q.backpointers.current_size ? q.backpointers.current_size : 1);
+        struct aws_priority_queue_node **src = (struct aws_priority_queue_node **)q.backpointers.data, **dst = (struct aws_priority_queue_node **)p->pq.backpointers.data;
+        memset(dst, 0, q.backpointers.current_size);
+        for (size_t i = 0; i < q.backpointers.length; ++i) dst[i] = src[i] ? p->hn + (src[i] - hnode) : NULL;
+    }
+}
+static void probe_end(struct probe *p) {
+    if (p->pq.container.alloc) aws_priority_queue_clean_up(&p->pq);
+    else if (p->pq.backpointers.data) aws_array_list_clean_up(&p->pq.backpointers);
+}
+static void probe_drain(struct probe *p, const char *what) {
+    int prev = -1;
+    while (aws_priority_queue_size(&p->pq) > 0 && !esx_failed) {
+        uint8_t it[MAXITEM];
+        memset(it, 0, sizeof(it));
+        void *top = NULL;
+        int want = 1000;
+        for (int i = 0; i < p->n; ++i)
+            if (p->rf[i].prio < want) want = p->rf[i].prio;
+        ESX_CHECK(aws_priority_queue_top(&p->pq, &top) == AWS_OP_SUCCESS && top && ((const uint8_t *)top)[0] == want, "drain-top", "%s: top is prio %d, the minimum of the remaining %d elements is %d", what,
+                  top ? ((const uint8_t *)top)[0] : -1, p->n, want);
+        if (esx_failed) return;
+        ESX_CHECK(aws_priority_queue_pop(&p->pq, it) == AWS_OP_SUCCESS, "drain-pop", "%s: pop failed with %zu elements left", what, aws_priority_queue_size(&p->pq));
+        if (esx_failed) return;
+        ESX_CHECK(it[0] == want && (int)it[0] >= prev, "drain-order", "%s: pop returned prio %d, the minimum of the remaining elements is %d (previous pop %d)", what, it[0], want, prev);
+        if (esx_failed) return;
+        prev = it[0];
+        /* elements that compare equal (and, for 1-byte items, are byte-identical) are interchangeable: take one whose
+         * handle - if it has one - has just left the queue */
+        int found = -1, any = -1;
+        for (int r = 0; r < p->n && found < 0; ++r)
+            if (p->rf[r].prio == it[0] && (g_cfg.item_size < 2 || p->rf[r].id == item_id(it)) && item_ok(it, p->rf[r].prio, p->rf[r].id)) {
+                any = r;
+                if (p->rf[r].handle < 0 || !aws_priority_queue_node_is_in_queue(&p->hn[p->rf[r].handle])) found = r;
+            }
+        ESX_CHECK(any >= 0, "drain-contents", "%s: pop returned (prio %d, id %d), which is not in the reference multiset (or its bytes are damaged)", what, it[0], item_id(it));
+        if (any >= 0) ESX_CHECK(found >= 0, "drain-handle", "%s: an element (prio %d) was popped but the handle of every matching element still claims to be in the queue", what, it[0]);
+        if (found < 0) return;
+        p->rf[found] = p->rf[p->n - 1];
+        p->n--;
+    }
+    if (!esx_failed) ESX_CHECK(p->n == 0, "drain-contents", "%s: the queue is empty but the reference still holds %d element(s)", what, p->n);
+}
+static void run_probes(void) {
+    static struct probe p;
+    char what[80];
+    probe_clone(&p);
+    probe_drain(&p, "draining");
+    probe_end(&p);
+    static const int extra[2] = {255, 0};
+    for (int k = 0; k < 2 && !esx_failed; ++k) {
+        if (g_cfg.is_static && (size_t)nref >= g_cfg.cap) break;
+        probe_clone(&p);
+        uint8_t item[MAXITEM];
+        make_item(item, extra[k], 0xEE);
+        snprintf(what, sizeof(what), "push(prio=%d) then draining", extra[k]);
+        if (aws_priority_queue_push(&p.pq, item) == AWS_OP_SUCCESS) {
+            p.rf[p.n].prio = extra[k];
+            p.rf[p.n].id = g_cfg.item_size >= 2 ? 0xEE : 0;
+            p.rf[p.n].handle = -1;
+            p.n++;
+            probe_drain(&p, what);
+        } else {
+            esx_fail("push-result", "%s: push failed (error %d) with %d elements", what, aws_last_error(), nref);
+        }
+        probe_end(&p);
+    }
+    for (int h = 0; h < NH && !esx_failed; ++h) {
+        if (hstate[h] != 1) continue;
+        probe_clone(&p);
+        uint8_t out[MAXITEM];
+        snprintf(what, sizeof(what), "remove(handle %d) then draining", h);
+        int r = -1;
+        for (int i = 0; i < p.n; ++i)
+            if (p.rf[i].handle == h) r = i;
+        if (aws_priority_queue_remove(&p.pq, out, &p.hn[h]) == AWS_OP_SUCCESS && r >= 0) {
+            ESX_CHECK(out[0] == p.rf[r].prio && item_ok(out, p.rf[r].prio, p.rf[r].id), "remove-result", "%s: remove returned (prio %d, id %d), the handle belongs to (prio %d, id %d)", what, out[0], item_id(out),
+                      p.rf[r].prio, p.rf[r].id);
+            p.rf[r] = p.rf[p.n - 1];
+            p.n--;
+            if (!esx_failed) probe_drain(&p, what);
+        } else {
+            esx_fail("remove-result", "%s: remove through a live handle failed (error %d)", what, aws_last_error());
+        }
+        probe_end(&p);
+    }
+}
 static void m_teardown(void) {
+    if (q_live && !esx_failed) run_probes();
     if (q_live) {
         aws_priority_queue_clean_up(&q);
         q_live = 0;
@@ -133,7 +256,10 @@ static void check_invariant(const char *after) {
         const uint8_t *it = data + i * g_cfg.item_size;
         if (i > 0) {
             const uint8_t *par = data + ((i - 1) / 2) * g_cfg.item_size;
-            ESX_CHECK(cmp_items(par, it) <= 0, "heap-order", "after %s: slot %zu (prio %d) above its parent (prio %d)", after, i, it[0], par[0]);
+            /* how the heap is laid out in its array (binary, 4-ary, ...) is the implementation's business: an observation, not a
+             * verdict.  What the property promises - pop and top return a minimum - is checked by draining every explored
+             * state in m_teardown() */
+            if (!esx_in_replay && cmp_items(par, it) > 0) V_COUNT("slots_above_their_binary_heap_parent", 1);
         }
         struct aws_priority_queue_node *bp = NULL;
         if (bplen) bp = ((struct aws_priority_queue_node **)q.backpointers.data)[i];
@@ -191,7 +317,7 @@ static void m_apply(int op) {
         int expect_err = 0;
         if (g_cfg.is_static && (size_t)nref >= g_cfg.cap) {
             expect_ok = false;
-            expect_err = AWS_ERROR_LIST_EXCEEDS_MAX_SIZE;
+            expect_err = AWS_ERROR_LIST_EXCEEDS_MAX_SIZE; /* what the shipped code raises; the header names AWS_ERROR_PRIORITY_QUEUE_FULL: either */
         } else if (g_cfg.is_static && with_handle) {
             expect_ok = false; /* header: statically initialised heaps do not support push_ref with a handle */
             expect_err = AWS_ERROR_UNSUPPORTED_OPERATION;
@@ -209,7 +335,10 @@ static void m_apply(int op) {
         } else {
             ESX_CHECK(rc == AWS_OP_ERR, "push-refused", "%s succeeded on a static queue (%d/%zu)", nm, nref, g_cfg.cap);
             if (rc == AWS_OP_ERR) {
-                ESX_CHECK(aws_last_error() == expect_err, "push-error-code", "%s: error %d, expected %d", nm, aws_last_error(), expect_err);
+                int e = aws_last_error();
+                bool full = g_cfg.is_static && (size_t)nref >= g_cfg.cap;
+                ESX_CHECK(e == expect_err || (full && (e == AWS_ERROR_PRIORITY_QUEUE_FULL || (with_handle && e == AWS_ERROR_UNSUPPORTED_OPERATION))), "push-error-code",
+                          "%s: error %d, expected %d", nm, e, expect_err);
                 uint8_t after[(MAXEL + 1) * MAXITEM];
                 size_t alen;
                 snapshot(after, &alen);
